@@ -114,3 +114,19 @@ Proof. rewrite code_unfixed. exact no_unwritten_slot. Qed.
 Theorem no_lost_wakeup_code : forall cap sched pp cp, 2 <= cap ->
   no_lost_wakeup_at cap (y_st (exec code_fixed cap sched pp cp)) = true.
 Proof. rewrite code_unfixed. exact no_lost_wakeup. Qed.
+
+(* Operation granularity (what the scheduled correspondence observes): when the peer is quiescent
+   (idle between operations, or gone) nobody can have a wake in flight, so a parked task faces an
+   empty (resp. full) and still open queue. *)
+Theorem quiescent_wake : forall cap sched pp cp, 2 <= cap ->
+  let s := y_st (exec code_fixed cap sched pp cp) in
+  (quiet (ppc s) = true -> parked_r s = true -> nonempty_or_closed s = false) /\
+  (quiet (cpc s) = true -> parked_s s = true -> space_or_closed cap s = false).
+Proof.
+  intros cap sched pp cp Hc s. pose proof (no_lost_wakeup_code cap sched pp cp Hc) as H. fold s in H.
+  unfold no_lost_wakeup_at in H. apply andb_true_iff in H. destruct H as [Hr Hs]. split.
+  - intros Hq Hp. rewrite Hp in Hr. destruct (nonempty_or_closed s); auto. cbn in Hr.
+    unfold wake_pending_r in Hr. destruct (ppc s); cbn in Hq; discriminate.
+  - intros Hq Hp. rewrite Hp in Hs. destruct (space_or_closed cap s); auto. cbn in Hs.
+    unfold wake_pending_s in Hs. destruct (cpc s); cbn in Hq; discriminate.
+Qed.
